@@ -25,7 +25,7 @@ import z3
 
 from . import kernel as K
 from . import ref as R
-from .kernel import BOOL, INT, REAL, STR, Rel, SymInput, Unsupported
+from .kernel import BOOL, DATE, DT, INT, REAL, STR, Rel, SymInput, Unsupported
 
 REPO_SRC = os.environ.get("PV_REPO_SRC", "/repo/src")
 
@@ -49,6 +49,10 @@ class Template:
     note: str = ""
     seq: bool = True  # demand sequence equality when the final order is determined
     tags: tuple = ()
+    # constructs outside every interpreter (durations, parsing of column text): the template is
+    # decided by a concrete differential of the two real backends on generated tables only
+    # (NOT solver-decided, counted separately); gen(rng) -> {source: [row dict]}
+    concrete_gen: Callable | None = None
 
 
 @dataclasses.dataclass
@@ -228,7 +232,9 @@ def build(tp: Template, cfg: Cfg) -> Built:
                     else:
                         b.artefact[key] = sql
                         sem = SqliteSem(sql_tables, str_len=str_len)
-                        runner = lambda: sem.run(sql)  # noqa: E731
+                        kinds = RL.sqlite_result_kinds(tbl)
+                        b.extras[key + ":result_kinds"] = kinds
+                        runner = lambda: sem.run(sql, kinds)  # noqa: E731
                     try:
                         b.rel[key] = runner()
                         b.status[key] = "ok"
@@ -735,6 +741,35 @@ def fallback_concrete(tp: Template, b: Built, cfg: Cfg, rng: random.Random, be: 
     return o
 
 
+def cross_concrete(tp: Template, cfg: Cfg, rng: random.Random) -> Obl:
+    """templates with `concrete_gen`: Polars vs SQLite on generated tables (not solver-decided)"""
+    o = Obl(tp.name, "concrete:polars≡sqlite")
+    tried = 0
+    for _ in range(6 if cfg.tier == "quick" else 30):
+        inputs = tp.concrete_gen(rng)
+        res = {}
+        for be in tp.backends:
+            try:
+                res[be] = run_real(tp, tp.prog, be, inputs)
+            except Exception as e:  # noqa: BLE001
+                res[be] = ("error", f"{type(e).__name__}: {str(e)[:200]}")
+        tried += 1
+        errs = [be for be in res if res[be][0] == "error"]
+        if len(errs) == len(res):
+            continue  # both refuse these data
+        ok = not errs
+        if ok:
+            (n1, r1), (n2, r2) = res["polars"], res["sqlite"]
+            ok = list(n1) == list(n2) and same_rows(r1, r2, False)
+        if not ok:
+            o.status = "violation"
+            o.detail = {"inputs": inputs, **{be: (res[be][1] if res[be][0] == "error" else res[be][1]) for be in res}, "not_solver_decided": True}
+            return o
+    o.status = "fallback-agrees"
+    o.detail = {"tried": tried, "not_solver_decided": True}
+    return o
+
+
 def _family(pl_dtype):
     import polars as pl
 
@@ -754,7 +789,9 @@ def _family(pl_dtype):
 def type_obligations(tp: Template, b: Built, cfg: Cfg, rng: random.Random) -> list[Obl]:
     """C12.  (a) schema of the compiled Polars plan == static dtypes, exactly (Polars' own
     type inference is the oracle, no value involved); (b) static kind of every SQLite
-    output expression (tracked by SEM_sqlite) lies in the family of the static dtype;
+    output expression (tracked by SEM_sqlite, after the SQLAlchemy result processor of the
+    real Select: without a Boolean / Date / DateTime processor the driver hands back the
+    raw integer / text) lies in the family of the static dtype;
     (c) on concrete tables: exported schemas (Polars exactly; SQLite up to the numeric
     family, all-null columns may be null-typed), re-import with Table(...) and collect()."""
     import polars as pl
@@ -801,7 +838,7 @@ def type_obligations(tp: Template, b: Built, cfg: Cfg, rng: random.Random) -> li
             for n in rel.names:
                 kind = rel.data[n][0].ty if rel.data[n] else "null"
                 fam = "null" if type(st[n]).__name__ == "NullType" else ("num" if (st[n].is_int() or st[n].is_float()) else "bool" if st[n] == pdt.Bool() else "str" if isinstance(st[n], pdt.String) else str(st[n]))
-                ok = kind == "null" or (fam == "num" and kind in ("int", "real", "bool")) or (fam == "bool" and kind in ("bool", "int")) or (fam == "str" and kind == "str") or fam == "null"
+                ok = kind == "null" or (fam == "num" and kind in ("int", "real", "bool")) or (fam == "bool" and kind == "bool") or (fam == "str" and kind == "str") or fam == "null" or (fam, kind) in (("Date", DATE), ("Datetime", DT))
                 if not ok:
                     bad[n] = (str(st[n]), kind)
             o.status = "structural-ok" if not bad else "structural-fail"
@@ -884,6 +921,10 @@ def random_rows(schema, nmax, rng, tp: Template):
                 row[c] = rng.random() < 0.5
             elif ty == REAL:
                 row[c] = rng.choice([-2.5, -1.0, -0.25, 0.0, 0.5, 1.5, 2.0, 3.75])
+            elif ty == DATE:
+                row[c] = K.days_to_date(rng.choice([-3653, -1, 0, 1, 59, 10956, 11016, 11017, 18266, 18267, 19782, 47481]))
+            elif ty == DT:
+                row[c] = K.us_to_dt(rng.choice([-3653, -1, 0, 11016, 18266, 18267]) * K.US_DAY + rng.choice([0, 0, 1, 999_999, 1_000_000, 3_723_000_004, 43_200_000_000, 86_399_999_999]))
             else:
                 row[c] = "".join(rng.choice(alpha) for _ in range(rng.randint(0, tp.str_len or 3)))
         rows.append(row)
@@ -892,6 +933,13 @@ def random_rows(schema, nmax, rng, tp: Template):
 
 def analyse(tp: Template, cfg: Cfg, *, known=None) -> dict:
     t0 = time.time()
+    if tp.concrete_gen is not None and not cfg.types_check and not cfg.structural_only:
+        hsh = int(hashlib.sha1(tp.name.encode()).hexdigest()[:8], 16)
+        o = cross_concrete(tp, cfg, random.Random(cfg.seed * 7919 + hsh))
+        return {
+            "template": tp.name, "props": list(tp.props), "obligations": [dataclasses.asdict(o)], "functions": [], "constructs": ["concrete-only"],
+            "defs": [], "notes": ["outside the interpreters: concrete differential only"], "status": {"ref": "outside-model"}, "artefacts": {}, "seconds": time.time() - t0, "cross_solver": [],
+        }  # fmt: skip
     try:
         b = build(tp, cfg)
     except Exception as e:  # noqa: BLE001
